@@ -8,6 +8,7 @@ use crate::universes;
 pub fn setup(name: &str, tier_depth: usize, max_rewinds: u32, wall: f64) -> (crate::universe::Universe, Cfg) {
     let u = match name {
         "tiny" => universes::tiny(),
+        "tiny-trees" => universes::tiny_trees(),
         "small" => universes::small(),
         "mid" => universes::mid(),
         _ => mc_core::machinery_error(&format!("unknown universe {name}")),
@@ -25,24 +26,24 @@ pub fn setup(name: &str, tier_depth: usize, max_rewinds: u32, wall: f64) -> (cra
         wall_cap_s: wall,
         state_cap: 400_000,
         tips: match name {
-            "tiny" => vec![ctip, ctip + 3],
+            "tiny" | "tiny-trees" => vec![ctip, ctip + 3],
             "small" => vec![f + 3, ctip, ctip + 3],
             _ => vec![f + 3, f + 6, ctip, ctip + 50],
         },
         rewind_heights: match name {
-            "tiny" => vec![f, f + 1, f + 2],
+            "tiny" | "tiny-trees" => vec![f, f + 1, f + 2],
             "small" => vec![f, f + 1, f + 2, f + 3, f + 4],
             _ => ends.iter().copied().filter(|h| *h < ctip).chain([f + 4, f + 60]).collect(),
         },
         with_roots: false,
         with_client: false,
-        with_rewind_state: false,
+        with_rewind_state: false, with_witness: false,
         free_scans: true,
         segment_scans: false,
         max_run: if name == "mid" { 2 } else { usize::MAX },
         witness_subset: 0,
         splits: match name {
-            "tiny" | "small" => vec![],
+            "tiny" | "tiny-trees" | "small" => vec![],
             _ => vec![f + 107],
         },
     };
@@ -55,7 +56,7 @@ pub fn setup(name: &str, tier_depth: usize, max_rewinds: u32, wall: f64) -> (cra
 /// (every contiguous run, i.e. every batching) follows.
 fn params(tier: Tier) -> Vec<(&'static str, usize, u32, f64, bool)> {
     match tier {
-        Tier::Quick => vec![("tiny", 8, 1, 22.0, true), ("tiny", 12, 1, 14.0, false)],
+        Tier::Quick => vec![("tiny", 8, 1, 24.0, true), ("tiny", 12, 1, 18.0, false)],
         Tier::Thorough => vec![("tiny", 14, 2, 120.0, true), ("tiny", 14, 2, 150.0, false), ("small", 12, 1, 280.0, false), ("mid", 8, 1, 300.0, false)],
     }
 }
